@@ -725,6 +725,18 @@ fn do_op(op: &Op) -> Obs {
     }
 }
 
+/// Content of a generated file: text, or — after the marker `%%RAW%%` — percent-encoded bytes
+/// (a file that is not valid UTF-8: the tool's read of it fails, an I/O outcome).
+pub fn file_bytes(c: &str) -> Vec<u8> {
+    match c.strip_prefix("%%RAW%%") {
+        Some(rest) => {
+            use std::os::unix::ffi::OsStringExt;
+            decode_path(rest).into_os_string().into_vec()
+        }
+        None => c.as_bytes().to_vec(),
+    }
+}
+
 pub const CLI_SCRATCH: &str = "/dev/shm/prql-sim-cli";
 
 /// Where the CLI binary and the preload library are: next to the simulator's own build
@@ -760,7 +772,7 @@ fn cli_process(
         if let Some(d) = path.parent() {
             let _ = std::fs::create_dir_all(d);
         }
-        if let Err(e) = std::fs::write(&path, c) {
+        if let Err(e) = std::fs::write(&path, file_bytes(c)) {
             let _ = std::fs::remove_dir_all(&top);
             return fail("write", e);
         }
@@ -815,10 +827,18 @@ fn cli_process(
             return fail("spawn", e);
         }
     };
+    // `debug lineage` prints the PL tree next to the lineage; PL holds the named arguments of a
+    // call in a HashMap, and the order in which that serialises is not among the outputs the
+    // property names (§3.1: PL is compared as canonical JSON everywhere) - so here too
+    let stdout_text = if args.first().map(|a| a == "debug").unwrap_or(false) && args.iter().any(|a| a == "lineage") && out.status.code() == Some(0) {
+        canonical_json(&String::from_utf8_lossy(&out.stdout))
+    } else {
+        String::from_utf8_lossy(&out.stdout).into_owned()
+    };
     let mut text = format!(
         "EXIT {:?}\nSTDOUT {}\nSTDERR {}",
         out.status.code(),
-        String::from_utf8_lossy(&out.stdout),
+        stdout_text,
         String::from_utf8_lossy(&out.stderr)
     );
     // `fmt` rewrites the files one by one and stops at the first that does not parse. Which
